@@ -114,9 +114,9 @@ CHECKS["C12"] = dict(
     design="DESIGN.md S.2 and 3 C12")
 
 CHECKS["C18"] = dict(
-    technique="Correspondence: the numba module FFCx generates is parsed, executed in plain Python (numba.carray modelled as a numpy view of the declared extent) and every kernel compared with the C kernel of the same objects on the same inputs; descriptor classes compared with the C descriptors and the user's expressions. Coq proof (small): the numba formatter's parenthesisation comparators, regenerated from the source, coincide with the C formatter's, whose output derives the canonical tree (Fmt.fmtC_derives)",
-    text="Sampled forms/expressions (all integral types, conditionals with Not/And/Or, min/max/abs/sign/power, all math functions, interior facets with coefficients in 1D/2D/3D, facet permutations, mixed spaces, constants, complex and single precision, two rules, diagonal, sum factorisation): valid Python, the kernels agree with the C kernels to 1e-11, reads stay inside the extents declared by tensor_sizes, descriptors carry the same metadata. Proved only: both printers parenthesise the same operand positions of the same AST. The Python grammar is not formalised (partial); real numba.cfunc compilation is left to the test suite.",
-    note="CPython as executor of the generated module; numba stub (harness/nbrun.py); gcc; Coq kernel for the comparator theorem; forms sampled",
+    technique="Coq proof: token-level model of the numba expression printer (PyFmt.fmtPy, comparators and handler shapes regenerated from numba/formatter.py by tr_prec) derives, under a Python expression grammar written from the language reference, the canonical reading of every tree FFCx can produce (fmtPy_derives); model vs real numba Formatter token for token and against Python's own parser on generated trees; the generated module executed in plain Python (numba.carray modelled as a view of the declared extent) against the C kernels of the same objects on the same inputs; descriptor classes compared with the C descriptors and the user's expressions",
+    text="Proved for all expression trees without a comparison directly under a comparison (Python chains comparisons; FFCx does not produce such trees): the printed Python tokens derive the tree (precedence/associativity of + - * /, comparisons, and/or, (not (x)), (t if c else f), a[i, j], np.f(args)). Correspondence on ~1000 generated trees per run: real text = model text, ast.parse(real text) = canonical tree. Sampled forms/expressions (all integral types, conditionals, min/max/abs/sign/power, math functions, interior facets with coefficients in 1D/2D/3D, permutations, mixed spaces, complex/single precision, two rules, diagonal, sum factorisation, equal table names with different values, literal-component expressions): valid Python, kernels agree with the C kernels to 1e-11, reads stay inside the extents declared by tensor_sizes, descriptors carry the same metadata. Statement level (loops, declarations) and complex literals are covered by execution only; real numba.cfunc compilation is left to the test suite.",
+    note="Coq kernel+VM; tr_prec.py; the Python grammar transcription in PyFmt.v; CPython's tokenizer/parser as arbiter and as executor of the generated module; numba stub (harness/nbrun.py); gcc; forms sampled",
     design="DESIGN.md S.2 and 3 C18")
 
 ALL = [f"C{i:02d}" for i in range(1, 21)]
